@@ -444,4 +444,6 @@ class Ctx:
         return os.path.join(self.work, name)
 
     def cleanup(self):
+        if os.environ.get("VERIF_KEEP_WORK"):   # debugging aid: look at the cases / events of a passing run
+            return
         shutil.rmtree(self.work, ignore_errors=True)
